@@ -111,6 +111,12 @@ def check_call(ctx, regs_by_sel, own):
     if ok and err == 'TypeError' and not nested_ref:
       fails.append(('spurious-typeerror', 'call %s args=%r kwargs=%r in scope %r raised TypeError although every '
                     'parameter has a value (bindings %r)' % (ctx['sel'], args, ctx['kwargs'], ctx['scope'], bound)))
+    if ok and err == 'ValueError' and not nested_ref:
+      # nothing the caller passed is gin.REQUIRED and every parameter has a value: gin has no ground to refuse the call
+      # (an argument's own __eq__ may answer True to anything: comparing it with a marker by == is gin's mistake)
+      fails.append(('spurious-valueerror', 'call %s args=%r kwargs=%r in scope %r raised ValueError although no argument '
+                    'is the REQUIRED marker and every parameter has a value (bindings %r)' %
+                    (ctx['sel'], args, ctx['kwargs'], ctx['scope'], bound)))
     return fails
   if own is None or own[0] != ctx['sel']:
     return [('no-call-record', 'call to %s returned but the function body did not run' % ctx['sel'])]
@@ -157,7 +163,12 @@ class CallEngine(Engine):
                                         ['call', 'm.f', [], [['b', ['i', 6]]]]]]]],
         ['with', 's1/s2', [['call', 'm.f', [], [['k1', ['i', 4]]]]]],
         ['with', ['s2'], [['call', 'm.f', [], []]]],
-        ['call', 'm.f', [], []], ['dumpcalls'], ['dumpconfig'], ['dumpoper']]}]
+        ['call', 'm.f', [], []], ['dumpcalls'], ['dumpconfig'], ['dumpoper']]},
+            {'regs': [{'sel': 'm.v', 'sig': {'args': ['a'], 'defaults': [], 'varargs': True, 'kwonly': [], 'varkw': True},
+                       'allow': [], 'deny': []}],
+             'ops': [['bind', 'v.a', ['i', 1]],
+                     ['call', 'm.v', [['i', 0], ['obj', 'ANY']], []], ['call', 'm.v', [['obj', 'ANY'], ['i', 2], ['obj', 'ANY']], []],
+                     ['call', 'm.v', [], [['z', ['obj', 'ANY']]]], ['call', 'm.v', [], [['a', ['obj', 'ANY']]]], ['dumpcalls']]}]
 
   def gen_value(self, rng, regs):
     if rng.random() < 0.04:
@@ -189,6 +200,8 @@ class CallEngine(Engine):
     return ['call', c['sel'], args, kwargs]
 
   def gen_arg(self, rng):
+    if rng.random() < 0.06:
+      return ['obj', 'ANY']       # an argument whose __eq__ answers True to everything (unittest.mock.ANY, symbolic objects)
     return ginm.gen_plain(rng, 1)
 
   def gen(self, rng, tier):
